@@ -94,7 +94,7 @@ func (n *Node) src(sb *strings.Builder) {
 		}
 		sb.WriteString("})")
 		if n.ViaMerge {
-			sb.WriteString("/*assembled as part1.Merge(part2, part3)*/")
+			fmt.Fprintf(sb, "/*assembled as part1.Merge(part2, part3) two=%v, cuts(fields,tests,posts)=%v; afterwards part1.Merge(inert) is built and dropped*/", n.MergeTwo, n.MergeCuts)
 		}
 	case Slice:
 		sb.WriteString("z.Slice(")
